@@ -7,6 +7,11 @@ NOTE = ("Trusted: Coq 8.16.1 kernel and vm_compute (no native_compute); no axiom
         "context'); the go2v translator; the Go harness/oracle; Go toolchain and third-party libraries. See DESIGN.md section 7.")
 SOURCE_COMMITS = []  # hook commits in /repo (none so far: the harness uses the public API only)
 CLAIMED = {
+ "C08": dict(ref="5 C08", technique="Rocq/Coq proof over the checker chain extracted by go2v (facts mode) + in-Coq model/implementation correspondence",
+   text="C08_one_outcome / C08_no_panic hold for every chain satisfying decidable wf8 / wf_order and for all requests, metadata and storage answers; "
+        "wf8 sso_steps = true is re-proved by vm_compute on the chain go2v extracts from sso.go on every run. The model is run inside Coq on the abstract inputs of "
+        "generated requests and must reproduce reply class, status, target, RelayState, InResponseTo and CreateAuthRequest arguments of the real handler; "
+        "an independent Go oracle counts persists and messages per request."),
  "C16": dict(ref="5 C16", technique="Rocq/Coq proof about go2v-generated Gallina of GetAcsUrlAndBindingForResponse + exhaustive correspondence",
    text="C16_bridge/_refines/_deterministic/_member are proved for all lists about the Gallina function go2v regenerates from sso.go on every run; "
         "the generated function is evaluated inside Coq on sampled and malformed inputs against the exported Go function; every list up to length 3 "
